@@ -89,6 +89,18 @@ NormOf(str) == IF NeedsNfkd(str, StrSize)
 
 ConstructorOps == {"Create", "Decode", "DecodeX", "Load"}
 
+\* the properties that speak about an operation as a whole: a dependency used where it has no business
+\* violates them too
+OpProps(op) ==
+    CASE op = "Create" -> {"C18", "C10", "C11"}
+      [] op \in {"Decode", "DecodeX"} -> {"C01", "C09", "C08"}
+      [] op = "Load" -> {"C06"}
+      [] op = "Crypt" -> {"C12"}
+      [] op = "Keygen" -> {"C04"}
+      [] op = "Encode" -> {"C03", "C01"}
+      [] op = "Free" -> {"C15", "C16"}
+      [] OTHER -> {}
+
 NfcConds(ev, dec) ==
     << Cond("nfc-through-injected", {"C18", "C13"}, ev.impl = deps.nfc),
        Cond("nfc-only-in-encode-of-composing-language", {"C03", "C13"}, G(call.a.lang).compose),
@@ -103,7 +115,7 @@ DepConds(ev) ==
     LET op == call.op
     IN CASE ev.e = "Alloc" ->
             << Cond("alloc-through-injected", {"C18", "C13"}, ev.impl = deps.alloc),
-               Cond("alloc-only-in-constructors", {"C15", "C13"}, op \in ConstructorOps),
+               Cond("alloc-only-in-constructors", {"C15", "C13"} \cup OpProps(op), op \in ConstructorOps),
                Cond("alloc-fresh-block", {"C15"}, ev.blk = 0 \/ ev.blk \notin DOMAIN blocks) >>
          [] ev.e = "Free" ->
             << Cond("free-through-injected", {"C18", "C13"}, ev.impl = deps.free),
@@ -121,12 +133,12 @@ DepConds(ev) ==
                     ev.blk >= 1 => (ev.blk \in DOMAIN blocks /\ ev.off + ev.len <= blocks[ev.blk].size)) >>
          [] ev.e = "Rand" ->
             << Cond("rand-through-injected", {"C18", "C13"}, ev.impl = deps.rand),
-               Cond("rand-only-in-create", {"C18", "C13"}, op = "Create"),
+               Cond("rand-only-in-create", {"C18", "C13"} \cup OpProps(op), op = "Create"),
                Cond("rand-once", {"C18", "C13"}, Count("Rand") = 0),
                Cond("rand-19-bytes", {"C18", "C13"}, ev.n = SecretBytes) >>
          [] ev.e = "Time" ->
             << Cond("time-through-injected", {"C18", "C13"}, ev.impl = deps.time),
-               Cond("time-only-in-create", {"C18", "C11", "C13"}, op = "Create"),
+               Cond("time-only-in-create", {"C18", "C11", "C13"} \cup OpProps(op), op = "Create"),
                Cond("time-once", {"C18", "C13"}, Count("Time") = 0) >>
          [] ev.e = "Kdf" ->
             IF op = "Keygen" THEN
@@ -151,10 +163,10 @@ DepConds(ev) ==
                   Cond("crypt-salt", {"C12", "C13"}, ev.saltlen = 16 /\ ev.salt = MaskSalt),
                   Cond("crypt-iterations", {"C12", "C13"}, ev.iter_lo = KdfIterations /\ ev.iter_hi = 0),
                   Cond("crypt-keylen", {"C12", "C13"}, ev.keylen = 32) >>
-            ELSE << Cond("kdf-only-in-keygen-and-crypt", {"C04", "C13"}, FALSE) >>
+            ELSE << Cond("kdf-only-in-keygen-and-crypt", {"C04", "C12", "C13"} \cup OpProps(op), FALSE) >>
          [] ev.e = "Nfkd" ->
             << Cond("nfkd-through-injected", {"C18", "C13"}, ev.impl = deps.nfkd),
-               Cond("nfkd-only-for-string-arguments", {"C13"}, op \in {"Decode", "DecodeX", "Crypt"}),
+               Cond("nfkd-only-for-string-arguments", {"C13"} \cup OpProps(op), op \in {"Decode", "DecodeX", "Crypt"}),
                Cond("nfkd-once", {"C13"}, Count("Nfkd") = 0),
                Cond("nfkd-only-when-needed", {"C13", "C19"},
                     op \in {"Decode", "DecodeX", "Crypt"} =>
@@ -172,7 +184,7 @@ DepConds(ev) ==
          [] ev.e = "Nfc" ->
             IF op = "Encode"
             THEN NfcConds(ev, EncodeDecomposed(SeedOf(call.a.h), call.a.lang, call.a.coin))
-            ELSE << Cond("nfc-only-in-encode-of-composing-language", {"C03", "C13"}, FALSE) >>
+            ELSE << Cond("nfc-only-in-encode-of-composing-language", {"C03", "C13"} \cup OpProps(op), FALSE) >>
          [] ev.e = "Forbidden" ->
             << Cond("no-other-source-of-time-randomness-or-memory", {"C18", "C13"}, FALSE) >>
          [] OTHER -> << Cond("unknown-dependency-event", {"C13"}, FALSE) >>
@@ -226,7 +238,7 @@ DecodeExpected == DecodeOutcome(NormOf(call.a.str), call.a.coin, DecodeSel, mask
 LoadExpected == IF AllocFailed THEN StMemory ELSE LoadStatus(call.a.buf, mask)
 
 ConstructorConds(r, exp) ==
-    << Cond("status", StatusTags(exp, r.st), r.st = exp),
+    << Cond("status", StatusTags(exp, r.st) \cup (IF call.op = "Load" THEN {"C06"} ELSE {}), r.st = exp),
        Cond("handle-iff-ok", {"C13", "C15"}, (r.st = StOK) <=> (r.h # 0)),
        Cond("new-seed-block-from-this-call", {"C15", "C13"},
             r.st = StOK => (r.blk \in AllocdBlocks /\ r.blk \in DOMAIN blocks)),
